@@ -59,6 +59,12 @@ type Params struct {
 	CleanShutdown bool // end the live run with SamehadaDB.Shutdown() (flush + graceful-shutdown record) instead of closing the files
 	NoUpdate      bool // never generate UPDATE (tables with a hash index: UpdateEntry is unimplemented there)
 	PreEpochs     int  // see Run
+	// Joins: with two tables, now and then a hash join between them at a quiescent point (its temp pages are deallocated
+	// at once, so page ids wait for reuse while later transactions allocate pages)
+	Joins bool
+	// BulkUpdates: some UPDATE statements change the indexed column k of EVERY row of a table (one statement dirties many heap
+	// pages and restructures the index on k before anything is flushed)
+	BulkUpdates bool
 	// BigTxnRows > 0: instead of the random walk, preload that many wide rows (auto-commit, before SetupEnd), then run
 	// transactions that each change EVERY row in one statement, so that a single transaction appends more log than the
 	// log buffer holds (LogBufferSize = 129 pages) with no commit, eviction or checkpoint flushing in between
@@ -468,6 +474,43 @@ func (rn *runner) dml(i int) bool {
 	if rn.p.NoUpdate && c >= 4 && c < 9 {
 		c = []int{0, 9}[r.Intn(2)]
 	}
+	if rn.p.BulkUpdates && !rn.p.NoUpdate && r.Intn(4) == 0 {
+		// every visible row of the table; another open transaction with writes on the table makes the statement conflict
+		nk := int32(1000 + r.Intn(100000))
+		conflict := false
+		for _, other := range rn.open {
+			if other != o && len(other.overlay[table]) > 0 {
+				conflict = true
+			}
+		}
+		seen := map[int32]bool{}
+		var ids []int
+		for id := range rn.commit[table] {
+			if rp, ok := o.overlay[table][id]; ok && rp == nil {
+				continue
+			}
+			seen[id] = true
+			ids = append(ids, int(id))
+		}
+		for id, rp := range o.overlay[table] {
+			if rp != nil && !seen[id] {
+				ids = append(ids, int(id))
+			}
+		}
+		sort.Ints(ids)
+		rn.h.Stats["stmt_update_every_row"]++
+		return rn.stmt(i, fmt.Sprintf("UPDATE %s SET k = %d WHERE id >= 0;", table, nk), conflict, func(o *openTxn) {
+			for _, idi := range ids {
+				old, _ := rn.visible(o, table, int32(idi))
+				if old == nil {
+					continue
+				}
+				nr := old.Clone()
+				nr[1] = rm.Int(nk)
+				rn.write(o, table, "upd", int32(idi), nr)
+			}
+		})
+	}
 	switch {
 	case c < 4: // insert (1-3 rows)
 		n := 1
@@ -772,6 +815,14 @@ func (rn *runner) run() {
 			if !rn.auto() {
 				return
 			}
+		case c >= 86 && c < 96 && rn.p.Joins && len(rn.p.Tables) >= 2:
+			// (in a transaction of its own, also while others are open: it may abort on their row locks)
+			a, b := rn.p.Tables[0].Name, rn.p.Tables[1].Name
+			// the wide column is part of the answer: the build side fills one temp page per row or two
+			sql := fmt.Sprintf("SELECT %s.id, %s.v, %s.id, %s.v FROM %s, %s WHERE %s.k = %s.k;", a, a, b, b, a, b, a, b)
+			rn.h.StmtLog = append(rn.h.StmtLog, "join: "+sql)
+			rn.db.Auto(sql)
+			rn.h.Stats["join_statements"]++
 		case len(rn.open) == 0 && c < 22 && rn.p.Checkpoint:
 			rn.rc.Mark("CKPT-BEGIN", 0)
 			rn.db.S.ForceCheckpointingForTestcase()
